@@ -12,7 +12,7 @@ LEVEL_TEXT = (
     'cleared in this iteration), plus the coverage rules of C01 that "exact on forests" presupposes. '
     'Exactness on forest-shaped models as a semantic statement is not decided.')
 
-FLOORS = {'C03-R2': 3, 'C03-R3': 4, 'C03-R4': 1, 'C11-R1': 14, 'C01-R1': 3, 'C01-R2': 3, 'C01-R3': 12,
+FLOORS = {'C03-R2': 3, 'C03-R3': 4, 'C03-R4': 1, 'C03-R7': 1, 'C11-R1': 14, 'C01-R1': 3, 'C01-R2': 3, 'C01-R3': 12,
           'C01-R4': 5, 'C01-R5': 3, 'C01-R7': 5, 'C01-R9': 3, 'C01-R10': 4}
 
 
@@ -123,6 +123,9 @@ def run(ctx):
             c03.r3_no_overwrite(ctx, CB(F, strat))
     with ctx.rule('C03-R4', 'SIM'):
         c03.r4_sim_end(ctx, F)
+    ctx.doc('C03-R7', 'simulation: the per-trace cycle-detection set is fresh for every trace')
+    with ctx.rule('C03-R7', 'SIM'):
+        c03.r7_sim_fresh_cycle_set(ctx, F)
     r1_bits(ctx, F)
     # exactness on forests presupposes that every reachable in-boundary state is evaluated
     import c01
